@@ -61,8 +61,8 @@ def run(ctx):
     quick = ctx.quick
     rng = random.Random(ctx.seed)
     # ---- M1
-    ctx.mc("Ring", "Ring_MC.cfg", must_cover=["AddAny|Add", "SampleAny|Sample", "Clear"])
-    ctx.mc("MABuffer", "MABuffer_MC.cfg", must_cover=["SaveSingle", "SaveVectAny|SaveVect", "SampleAny|Sample"])
+    ctx.mc("Ring", "Ring_MC.cfg" if quick else "Ring_MCt.cfg", must_cover=["AddAny|Add", "SampleAny|Sample", "Clear"])
+    ctx.mc("MABuffer", "MABuffer_MC.cfg" if quick else "MABuffer_MCt.cfg", must_cover=["SaveSingle", "SaveVectAny|SaveVect", "SampleAny|Sample"])
 
     # ---- M2: path cover of the Add/Clear relation, replayed on the real buffer
     r = tlc.dump("Ring_Dump", "Ring_Dump.cfg")
